@@ -272,15 +272,27 @@ def deleteFiles (s : State) (n : Name) : Res :=
   | none => fail s .valueError
   | some fs => { st := { s with disk := eraseAll s.disk fs }, out := .ok, removed := fs }
 
+/-- `IH5UserBlock.create(prev=None)` -/
+def newBaseUB (k : Nat) : UB :=
+  { rid := k + 1, idx := 0, pid := k, prev := none, hash := none, ext := none }
+
+/-- `IH5UserBlock.create(prev=ul)` -/
+def newPatchUB (ul : UB) (k : Nat) : UB :=
+  { rid := ul.rid, idx := ul.idx + 1, pid := k, prev := some ul.pid, hash := none, ext := none }
+
+/-- what `_create(.., truncate)` unlinks first: everything `find_files` returns, if the base
+container file exists -/
+def goneFiles (d : Disk) (n : Name) (truncate : Bool) : List Name :=
+  if truncate && (getF d (baseFile n)).isSome then (names d).filter (belongs n) else []
+
 /-- `_create(record, truncate)` followed by `self.__dict__.update(ret.__dict__)`.
 `openNames`: files held open by the calling handle (non-empty only inside `merge_files`). -/
 def createRec (s : State) (mfcls : Bool) (n : Name) (truncate : Bool) (openNames : List Name) : Res :=
   if !isValidName n then fail s .valueError else
   let path := baseFile n
-  let gone : List Name :=
-    if truncate && (getF s.disk path).isSome then (names s.disk).filter (belongs n) else []
+  let gone : List Name := goneFiles s.disk n truncate
   let d1 := eraseAll s.disk gone
-  let ub : UB := { rid := s.next + 1, idx := 0, pid := s.next, prev := none, hash := none, ext := none }
+  let ub : UB := newBaseUB s.next
   match newContainer d1 openNames path ub with
   | .error e => { st := { s with disk := d1 }, out := e, removed := gone }
   | .ok d2 =>
@@ -301,8 +313,7 @@ def createPatch (s : State) : Res :=
     match h.files, lastFile h.files with
     | (f0, _) :: _, some (_, ul) =>
       let path := patchFile (inferName f0) (ul.idx + 1)
-      let ub : UB := { rid := ul.rid, idx := ul.idx + 1, pid := s.next, prev := some ul.pid,
-                       hash := none, ext := none }
+      let ub : UB := newPatchUB ul s.next
       match newContainer s.disk (fileNames h) path ub with
       | .error e => fail { s with next := s.next + 1 } e
       | .ok d =>
@@ -470,17 +481,18 @@ def mergeFiles (s : State) (target : Name) : Res :=
         let s2 : State := { r1.st with disk := setPayload r1.st.disk path content }
         let r3 := close s2 true
         let ub : UB := { ul with prev := u0.prev, hash := some content }
-        let back (d : Disk) (o : Out) (cr wr : List Name) : Res :=
-          { st := { disk := d, h := h, next := r3.st.next }, out := o, created := cr, written := wr }
+        let back (d : Disk) (o : Out) (wr : List Name) : Res :=
+          { st := { disk := d, h := h, next := r3.st.next }, out := o,
+            created := path :: r3.created, written := wr }
         if h.mfcls then
           match h.manifest, ub.ext with
           | some (mu, mb), some (eu, _) =>
             if eu == mu then
               back (setF (setF r3.st.disk (manifestFile path) (.mf mu mb)) path (.cont ub content))
-                .ok (r1.created ++ r3.created) r3.written
-            else back r3.st.disk .assertionError (r1.created ++ r3.created) r3.written
-          | _, _ => back (setF r3.st.disk path (.cont ub content)) .ok (r1.created ++ r3.created) r3.written
-        else back (setF r3.st.disk path (.cont ub content)) .ok (r1.created ++ r3.created) r3.written
+                .ok (r3.written ++ [manifestFile path])
+            else back r3.st.disk .assertionError r3.written
+          | _, _ => back (setF r3.st.disk path (.cont ub content)) .ok r3.written
+        else back (setF r3.st.disk path (.cont ub content)) .ok r3.written
       | e => fail s e
     | _, _ => fail s .valueError
 
